@@ -143,6 +143,12 @@ except ImportError:
     pass
 
 try:
+    import libhost_c06  # C06: the emitted async client over the emitted asyncio REST transport, same call format as rest_session
+    OPS.update(libhost_c06.OPS)
+except ImportError:
+    pass
+
+try:
     import libhost_c07  # C07: pagers used as objects (programs over `pages` / `__iter__` generators), caller's request before/after
     OPS.update(libhost_c07.OPS)
 except ImportError:
